@@ -1440,6 +1440,31 @@ def rule_bpwalk(ctx: Ctx) -> List[Ob]:
             whyb = f"{short(s, 70)}"
     obs.append(ob("BPWALK", "variables already on their bound (t = 0) are taken out of the walk", f, flt[0] if flt else lp, okb, whyb,
                   construct="sorted_t_idx = sorted_t_idx[t[sorted_t_idx] > 0]"))
+    # (b') nothing else is taken out of the sorted order: a variable with t = inf is free along the whole path, and the
+    # routine's early exit (no breakpoint left -> the Cauchy point is x) is only right when no variable moves at all
+    allowed_ids = {id(s) for s in flt}
+    others = []
+    for s in ast.walk(f.node):
+        if isinstance(s, (ast.Assign, ast.AnnAssign, ast.AugAssign)) and getattr(s, "value", None) is not None and \
+                getattr(s, "lineno", 0) < lp.lineno:
+            tg = s.targets[0] if isinstance(s, ast.Assign) else s.target
+            if src(tg) != "sorted_t_idx":
+                continue
+            v = s.value
+            if src(v).replace(" ", "") in ("np.argsort(t)", "t.argsort()") or (isinstance(v, ast.Call) and (dotted(v.func) or "").endswith("argsort")):
+                continue
+            if id(s) in allowed_ids and okb and len(flt) == 1:
+                continue
+            if id(s) in allowed_ids and isinstance(v.slice, ast.Compare) and len(v.slice.ops) == 1 and \
+                    isinstance(v.slice.comparators[0], ast.Constant) and v.slice.comparators[0].value == 0:
+                continue
+            others.append(s)
+    obs.append(ob("BPWALK", "only the breakpoints t = 0 are taken out of the sorted order", f, others[0] if others else (flt[0] if flt else lp),
+                  not others, ("; ".join(f"line {s.lineno}: `{short(s, 70)}`" for s in others[:3]) +
+                               ": breakpoints other than t = 0 are dropped -- a variable with t = inf moves along the whole path; "
+                               "with no breakpoint left the routine returns x itself as the Cauchy point, so a variable sitting on a "
+                               "bound with the gradient pointing inwards is never released") if others else
+                  "the sorted order is redefined only by the t > 0 filter", construct="other filters of sorted_t_idx"))
     # (c) the stop test comes first and leaves the loop
     heads_ = [n for n in cfg.nodes if (n.kind == "loophead" and n.owner is lp) or (n.kind == "for" and n.ast is lp)]
     need(len(heads_) == 1, "BPWALK: head of the breakpoint loop not found")
